@@ -519,6 +519,32 @@ def kind_uniform(e):
     return len(kinds) <= 1
 
 
+def dtype_uniform(e):
+    """every leaf (and strong scalar) of the tree has one and the same dtype and no complex Python
+    scalar multiplies a real tree"""
+    dts = set()
+
+    def walk(t):
+        for k in ("dt", "ddt", "indt", "gdt"):
+            if isinstance(t.get(k), str):
+                dts.add(t[k])
+        c = t.get("c")
+        if isinstance(c, dict):
+            if c["kind"] in ("np", "jx"):
+                dts.add(c["dt"])
+            elif c["kind"] == "complex":
+                dts.add("complex-scalar")
+        for k in ("a", "b"):
+            if isinstance(t.get(k), dict):
+                walk(t[k])
+
+    walk(e)
+    if "complex-scalar" in dts:
+        dts.discard("complex-scalar")
+        return len(dts) <= 1 and all(is_cplx(d) for d in dts)
+    return len(dts) <= 1
+
+
 def uses_adjoint(e):
     """does evaluating the expression go through an adjoint closure (.T, .H, gram_op)?"""
     if e["t"] in ("T", "H", "gram"):
